@@ -78,6 +78,14 @@ Theorem C01_slice_face_tolerance_partial : forall tol a b, 0 <= tol -> tol < a -
   0 < a / (a - b) <= 1 + tol / (a - tol).
 Proof. exact cut_param_band. Qed.
 
+(* REFUTED without H0 (known finding C01 / near_band_cut_leaves_face): "no output vertex lies outside the input face it
+   came from" fails when a corner inside the tolerance band is not exactly on the plane.  A face with corner offsets
+   2 (in front), 1/2 (classified on, tol = 1) and -2 (behind) yields the output corner (4/3, 0, 0), beyond the far corner
+   of its edge and outside the face. *)
+Theorem C01_cut_vertex_inside_face_without_H0_refuted :
+  exists tol eps n o t t' v, 0 <= tol /\ In t' (slice_face ROps tol eps n o true t) /\ In v (tri_corners t') /\ ~ in_tri t v.
+Proof. exact cut_vertex_outside_face. Qed.
+
 (* the mesh pipeline (masks, group order, appended vertex numbering, renumbering) is the per-face kernel applied to every
    face: for all vertex lists, face lists and masks, the returned coordinate triangles paired with the returned face
    mapping are a permutation of (i, t') for t' in slice_face of face i.  rows = vertices[faces] with the mask bit. *)
@@ -103,5 +111,5 @@ Qed.
 Definition C01_all := (C01_classify, C01_slice_face_cases, C01_slice_face_cases_corners, C01_face_signs_are_patterns,
   C01_unselected_kept, C01_on_or_in_front_kept, C01_no_corner_in_front_dropped,
   C01_slice_face_sound, C01_slice_face_orient, C01_crossing_point, C01_slice_face_cover, C01_slice_face_area,
-  C01_slice_face_tolerance_partial, C01_slice_mesh_is_per_face).
+  C01_slice_face_tolerance_partial, C01_slice_mesh_is_per_face, C01_cut_vertex_inside_face_without_H0_refuted).
 Print Assumptions C01_all.
